@@ -63,10 +63,15 @@ Fixpoint all_chars (p : ascii -> bool) (s : string) : bool :=
 
 (* the alphabet of repr(float): digits, sign, point, exponent, "inf", "nan" *)
 Definition float_char (a : ascii) : bool := has_char a "0123456789+-.einfa".
-(* a float is carried as repr text.  Negative zero is excluded: it compares equal to 0.0 but prints
-   differently (see notes/C09.md, finding C09:negzero) *)
+(* a float is carried as repr text (nan excluded: it is not equal to itself).  Negative zero compares equal to 0.0
+   but prints differently: a validated instance may hold either (float_held), the cache key is the repr of 0.0 for both
+   (fzero: -0.0 == 0.0 and hash(-0.0) == hash(0.0); the repaired params.py:_named_value names both as 0.0), so that
+   cache-key floats (float_ok) are never "-0.0" *)
+Definition float_held (r : string) : bool :=
+  all_chars float_char r && negb (String.eqb r "") && negb (String.eqb r "nan").
 Definition float_ok (r : string) : bool :=
   all_chars float_char r && negb (String.eqb r "") && negb (String.eqb r "-0.0") && negb (String.eqb r "nan").
+Definition fzero (r : string) : string := if String.eqb r "-0.0" then "0.0" else r.
 
 (* ---------- number-like values ---------- *)
 (* the normal form of a value: (0, 0) for zero, otherwise the coefficient is not divisible by ten *)
@@ -145,7 +150,7 @@ Definition dec_of_float (r : string) : result Dec.dec :=
 Fixpoint valid (d : dtype) (v : pval) {struct d} : bool :=
   match d, v with
   | DInt, VInt _ => true
-  | DFloat, VFloat r => float_ok r
+  | DFloat, VFloat r => float_held r
   | DStr, VStr _ => true
   | DBool, VBool _ => true
   | DOpt _, VNone => true
@@ -242,15 +247,17 @@ Fixpoint pvals_eqb (xs ys : list pval) : bool :=
 
 (* ---------- comparing level-2 values field by field: the number-like leaves by a given test, paramclass instances
    recursively (the dataclass __eq__ / __hash__ of a paramclass instance go through the fields in order), everything
-   else as on level 3 (floats: float_ok excludes the two cases where == and the repr text differ, nan and -0.0).
+   else as on level 3 (floats: == is equality of the repr texts except for -0.0 == 0.0; nan is excluded).
    A Prefixed against a Literal is not modelled (Prefixed.__eq__ raises): false. ---------- *)
 Section Lift.
 Variable RP : Dec.dec -> Z -> Dec.dec -> Z -> bool.
 Variable RD : Dec.dec -> Dec.dec -> bool.
+Variable RF : string -> string -> bool.
 Fixpoint lift_eqb (a b : pval) {struct a} : bool :=
   match a, b with
   | VPrefW x q, VPrefW y r => RP x q y r
   | VDecW x, VDecW y => RD x y
+  | VFloat x, VFloat y => RF x y
   | VRec xs, VRec ys =>
       (fix go (xs ys : list pval) {struct xs} : bool :=
          match xs, ys with
@@ -273,8 +280,9 @@ End Lift.
    Decimal.__eq__ compares values *)
 Definition pref_eq (x : Dec.dec) (q : Z) (y : Dec.dec) (r : Z) : bool :=
   Prefixed.pcmp Prefixed.OEq (Prefixed.mkP x q) (Prefixed.mkP y r).
-Definition inst_eqb : pval -> pval -> bool := lift_eqb pref_eq Dec.deqb.
-Definition insts_eqb : list pval -> list pval -> bool := lifts_eqb pref_eq Dec.deqb.
+Definition float_eq (r s : string) : bool := String.eqb (fzero r) (fzero s).
+Definition inst_eqb : pval -> pval -> bool := lift_eqb pref_eq Dec.deqb float_eq.
+Definition insts_eqb : list pval -> list pval -> bool := lifts_eqb pref_eq Dec.deqb float_eq.
 
 (* hash(a) == hash(b) for an idealised (collision-free) hash of what CPython hashes: the VALUE of a Prefixed
    (Prefixed.__hash__ = hash(self.scale(UNIT).number), Model/Prefixed.v: phash - the normal form of the number scaled to
@@ -283,8 +291,8 @@ Definition res_eqb (a b : result (Z * Z)) : bool :=
   match a, b with Ok h1, Ok h2 => (fst h1 =? fst h2) && (snd h1 =? snd h2) | _, _ => false end.
 Definition pref_hash_eq (x : Dec.dec) (q : Z) (y : Dec.dec) (r : Z) : bool := res_eqb (canon_pref x q) (canon_pref y r).
 Definition dec_hash_eq (x y : Dec.dec) : bool := res_eqb (canon_dec x) (canon_dec y).
-Definition hash_eqb : pval -> pval -> bool := lift_eqb pref_hash_eq dec_hash_eq.
-Definition hashes_eqb : list pval -> list pval -> bool := lifts_eqb pref_hash_eq dec_hash_eq.
+Definition hash_eqb : pval -> pval -> bool := lift_eqb pref_hash_eq dec_hash_eq float_eq.
+Definition hashes_eqb : list pval -> list pval -> bool := lifts_eqb pref_hash_eq dec_hash_eq float_eq.
 
 (* the dict lookup of the generator cache finds an entry when the hashes agree and the keys compare equal *)
 Definition lookup_hit (a b : list pval) : bool := hashes_eqb a b && insts_eqb a b.
@@ -320,7 +328,7 @@ Fixpoint validate (d : dtype) (v : pval) {struct d} : result pval :=
   match d, v with
   | DInt, VInt z => Ok (VInt z)
   | DInt, VBool b => Ok (VInt (if b then 1 else 0))
-  | DFloat, VFloat r => if float_ok r then Ok (VFloat r) else Error EBadKind
+  | DFloat, VFloat r => if float_held r then Ok (VFloat r) else Error EBadKind
   | DFloat, VInt z => if (Z.abs z <? float_of_int_limit) && float_ok (dec z ++ ".0")
                       then Ok (VFloat (dec z ++ ".0")) else Error EBadKind
   | DFloat, VBool b => Ok (VFloat (if b then "1.0" else "0.0"))
@@ -364,6 +372,7 @@ Fixpoint canon (v : pval) {struct v} : result pval :=
               | x :: vs' => y <- canon x ;; ys <- go vs' ;; Ok (y :: ys)
               end) vs ;;
       Ok (VRec r)
+  | VFloat r => Ok (VFloat (fzero r))
   | VPref _ _ | VDec _ _ => Error EBadKind          (* not a level-2 value *)
   | _ => Ok v
   end.
